@@ -13,7 +13,7 @@ use std::rc::Rc;
 pub static ENGINE: Engine = Engine {
     prop: "C05",
     level: "exploration",
-    rule: "API: every operand list of length 0..L over ALL functions of k variables (k=2: L=4, k=3: L=2; repeated and overlapping operands arise by construction) x every bound n in -2..L+2 x {aln, amn, exn}; every pair of lists (k=2: <=2 x <=2, thorough <=3 x <=2) x {count_leq, lt, geq, gt, eq}; the admissible extreme bounds i64::MIN+L and i64::MAX-L; oracle = per-assignment integer count. Language: every AST <= N nodes over a counting alphabet (5 comparisons x constants 0..3 x lists <= 3, list-vs-list, nesting, `<=` in counting position next to `<=` as connective) and a family of extreme constants around 2^63 and 2^64 (accepted => exact meaning, not representable => Err). distinct = distinct (operation, operand list, bound) + distinct formula texts",
+    rule: "API: every operand list of length 0..L over ALL functions of k variables (k=2: L=4, k=3: L=2; repeated and overlapping operands arise by construction) x every bound n in -2..L+2 x {aln, amn, exn}; every pair of lists (k=2: <=2 x <=2, thorough <=3 x <=2) x {count_leq, lt, geq, gt, eq}; the admissible extreme bounds i64::MIN+L and i64::MAX-L; a structured family of longer lists (5..9 operands over 6 variables, 3..5 vs 3..5 for list comparisons); oracle = per-assignment integer count. Language: every AST <= N nodes over a counting alphabet (5 comparisons x constants 0..3 x lists <= 3, list-vs-list, nesting, `<=` in counting position next to `<=` as connective) and a family of extreme constants around 2^63 and 2^64 (accepted => exact meaning, not representable => Err). distinct = distinct (operation, operand list, bound) + distinct formula texts",
     assumptions: &["reference counts in unbounded integers", "k <= 3, list length <= 4, AST size bound"],
     max_shards: 64,
     run,
@@ -160,6 +160,125 @@ fn api_sweep(ctx: &mut Ctx, k: usize, maxlist: usize, ll: usize, rl: usize) {
     }
 }
 
+
+/// longer lists than the complete sweeps reach: 6 variables with gaps, a pool of 15 operand
+/// functions (literals, negations, three composites), lists of length 5..9 drawn as
+/// arithmetic progressions through the pool (every start x four strides), every bound
+/// -1..L+1; list-vs-list with 3..5 operands on each side
+fn long_lists(ctx: &mut Ctx) {
+    let syms = [1usize, 4, 6, 9, 12, 20];
+    let sp = Space::<usize>::empty(&syms);
+    let k = 6;
+    let v: Vec<u64> = (0..k).map(|i| crate::refl::var_tt(k, i)).collect();
+    let mut pool_tt: Vec<u64> = vec![];
+    for x in &v {
+        pool_tt.push(*x);
+    }
+    for x in &v {
+        pool_tt.push(!*x);
+    }
+    pool_tt.push(v[0] & v[1]);
+    pool_tt.push(v[2] | v[3]);
+    pool_tt.push(v[4] ^ v[5]);
+    let pool: Vec<H> = pool_tt.iter().map(|t| sp.intern(&sp.canon(*t))).collect();
+    let env = sp.env.clone();
+    let mut idx = 0u64;
+    let list_at = |start: usize, stride: usize, len: usize| -> Vec<usize> { (0..len).map(|i| (start + stride * i) % pool.len()).collect() };
+    for len in 5..=9usize {
+        for start in 0..pool.len() {
+            for stride in [1usize, 2, 4, 7] {
+                idx += 1;
+                if !ctx.mine(idx) {
+                    continue;
+                }
+                let ix = list_at(start, stride, len);
+                let hs: Vec<H> = ix.iter().map(|i| pool[*i].clone()).collect();
+                let tts: Vec<u64> = ix.iter().map(|i| pool_tt[*i]).collect();
+                for n in -1..=(len as i64 + 1) {
+                    let case = json!({"part": "long", "list": ix, "n": n});
+                    ctx.begin_case(|| case.clone());
+                    ctx.count("evaluations", 1);
+                    ctx.count("long_list_cases", 1);
+                    ctx.count("distinct_by_construction", 1);
+                    let key = format!("{TAG} api 6 variables: list of {len} operands (pool indexes {:?}) bound {n}", ix);
+                    match guarded(|| (env.aln(&hs, n), env.amn(&hs, n), env.exn(&hs, n))) {
+                        Err(p) => ctx.violation(key, format!("counting panicked: {p}"), case),
+                        Ok((al, am, ex)) => {
+                            let mut c = vec![];
+                            for (name, h, f) in [("at-least", &al, 0), ("at-most", &am, 1), ("exactly", &ex, 2)] {
+                                let mut want = 0u64;
+                                for a in 0..64usize {
+                                    let cnt = count_at(&tts, a);
+                                    if match f {
+                                        0 => cnt >= n as i128,
+                                        1 => cnt <= n as i128,
+                                        _ => cnt == n as i128,
+                                    } {
+                                        want |= 1 << a;
+                                    }
+                                }
+                                match sp.tt(h) {
+                                    Err(m) => c.push(m),
+                                    Ok(t) if t != want => c.push(format!("{name}-{n} is true under {t:#x}, counting gives {want:#x}")),
+                                    _ => {}
+                                }
+                            }
+                            if !c.is_empty() {
+                                ctx.violation(key, c.join("; "), case);
+                            }
+                        }
+                    }
+                }
+            }
+        }
+    }
+    for ll in 3..=5usize {
+        for rl in 3..=5usize {
+            for ls in 0..pool.len() {
+                for rs in (0..pool.len()).step_by(2) {
+                    idx += 1;
+                    if !ctx.mine(idx) {
+                        continue;
+                    }
+                    let (li, ri) = (list_at(ls, 2, ll), list_at(rs, 7, rl));
+                    let case = json!({"part": "long-lists", "left": li, "right": ri});
+                    ctx.begin_case(|| case.clone());
+                    ctx.count("evaluations", 1);
+                    ctx.count("long_list_cases", 1);
+                    ctx.count("distinct_by_construction", 1);
+                    let lh: Vec<H> = li.iter().map(|i| pool[*i].clone()).collect();
+                    let rh: Vec<H> = ri.iter().map(|i| pool[*i].clone()).collect();
+                    let lt: Vec<u64> = li.iter().map(|i| pool_tt[*i]).collect();
+                    let rt: Vec<u64> = ri.iter().map(|i| pool_tt[*i]).collect();
+                    let key = format!("{TAG} api 6 variables: lists {:?} vs {:?} (pool indexes)", li, ri);
+                    match guarded(|| [env.count_leq(&lh, &rh), env.count_lt(&lh, &rh), env.count_geq(&lh, &rh), env.count_gt(&lh, &rh), env.count_eq(&lh, &rh)]) {
+                        Err(p) => ctx.violation(key, format!("list comparison panicked: {p}"), case),
+                        Ok(res) => {
+                            let mut c = vec![];
+                            for (h, op) in res.iter().zip([Cmp::AtMost, Cmp::LessThan, Cmp::AtLeast, Cmp::MoreThan, Cmp::Exactly]) {
+                                let mut want = 0u64;
+                                for a in 0..64usize {
+                                    if cmp_holds(op, count_at(&lt, a) as u128, count_at(&rt, a) as u128) {
+                                        want |= 1 << a;
+                                    }
+                                }
+                                match sp.tt(h) {
+                                    Err(m) => c.push(m),
+                                    Ok(t) if t != want => c.push(format!("{:?} is true under {t:#x}, comparing the counts gives {want:#x}", op)),
+                                    _ => {}
+                                }
+                            }
+                            if !c.is_empty() {
+                                ctx.violation(key, c.join("; "), case);
+                            }
+                        }
+                    }
+                }
+            }
+        }
+    }
+}
+
 fn counting_alpha() -> Alpha {
     let s = |x: &str| x.to_string();
     Alpha { leaves: vec![Ast::True, Ast::False, Ast::var("a"), Ast::var("b"), Ast::var("c")], not: true, bins: vec![Bin::And, Bin::ImpliesInv], ite: false, cmps: ALL_CMPS.to_vec(), nums: vec![s("0"), s("1"), s("2"), s("3"), s("4")], cv: true, max_list: 3, ..Default::default() }
@@ -253,12 +372,23 @@ fn run(ctx: &mut Ctx) {
     let th = ctx.thorough();
     api_sweep(ctx, 2, 4, if th { 3 } else { 2 }, 2);
     api_sweep(ctx, 3, 2, 1, 1);
+    long_lists(ctx);
     text_sweep(ctx);
 }
 
 fn replay(ctx: &mut Ctx, c: &Value) {
     let u64s = |v: &Value| -> Vec<u64> { v.as_array().map(|a| a.iter().map(|x| x.as_u64().unwrap_or(0)).collect()).unwrap_or_default() };
     match c["part"].as_str() {
+        Some("long") | Some("long-lists") => {
+            // the structured family is small: re-run it and keep the recorded case
+            let mut c2 = Ctx::new("C05", ctx.tier, ctx.seed, 0, 1);
+            long_lists(&mut c2);
+            for v in c2.violations {
+                if v.replay == *c {
+                    ctx.violation(v.key, v.what, v.replay);
+                }
+            }
+        }
         Some("text") => {
             let text = c["text"].as_str().unwrap_or("");
             // constants beyond the number type: the reference accepts, the implementation must refuse
